@@ -44,7 +44,7 @@ def gen_cases(tier, seed):
     if tier == "quick":
         runs = [(2500, seed)]
     else:
-        runs = [(5000, seed * 1000 + i) for i in range(8)]
+        runs = [(4000, seed * 1000 + i) for i in range(8)]
     gen = 0
     with cf.ThreadPoolExecutor(len(runs)) as ex:
         for r3 in ex.map(lambda a: _sim(*a), runs):
